@@ -89,11 +89,11 @@ func NewWarmUpTrafficShapingCalculator(owner *TrafficShapingController, rule *Ru
 	return warmUpTrafficShapingCalculator
 }
 
-func (c *WarmUpTrafficShapingCalculator) CalculateAllowedTokens(_ uint32, _ int32) float64 {
+func (c *WarmUpTrafficShapingCalculator) CalculateAllowedTokens(batchCount uint32, _ int32) float64 {
 	metricReadonlyStat := c.BoundOwner().boundStat.readOnlyMetric
 	previousQps := metricReadonlyStat.GetPreviousQPS(base.MetricEventPass)
 	// the tokens that passed in the previous interval
-	c.syncToken(previousQps * float64(c.intervalInMs) / 1000.0)
+	c.syncToken(previousQps*float64(c.intervalInMs)/1000.0, batchCount)
 
 	restToken := atomic.LoadInt64(&c.storedTokens)
 	if restToken < 0 {
@@ -120,7 +120,7 @@ func (c *WarmUpTrafficShapingCalculator) CalculateAllowedTokens(_ uint32, _ int3
 	}
 }
 
-func (c *WarmUpTrafficShapingCalculator) syncToken(passQps float64) {
+func (c *WarmUpTrafficShapingCalculator) syncToken(passQps float64, batchCount uint32) {
 	currentTime := util.CurrentTimeMillis()
 	currentTime = currentTime - currentTime%c.intervalInMs
 
@@ -130,7 +130,7 @@ func (c *WarmUpTrafficShapingCalculator) syncToken(passQps float64) {
 	}
 
 	oldValue := atomic.LoadInt64(&c.storedTokens)
-	newValue := c.coolDownTokens(currentTime, passQps)
+	newValue := c.coolDownTokens(currentTime, passQps, batchCount)
 
 	if atomic.CompareAndSwapInt64(&c.storedTokens, oldValue, newValue) {
 		if currentValue := atomic.AddInt64(&c.storedTokens, int64(-passQps)); currentValue < 0 {
@@ -140,7 +140,7 @@ func (c *WarmUpTrafficShapingCalculator) syncToken(passQps float64) {
 	}
 }
 
-func (c *WarmUpTrafficShapingCalculator) coolDownTokens(currentTime uint64, passQps float64) int64 {
+func (c *WarmUpTrafficShapingCalculator) coolDownTokens(currentTime uint64, passQps float64, batchCount uint32) int64 {
 	oldValue := atomic.LoadInt64(&c.storedTokens)
 	newValue := oldValue
 
@@ -158,7 +158,15 @@ func (c *WarmUpTrafficShapingCalculator) coolDownTokens(currentTime uint64, pass
 		if lowTraffic < 1 {
 			lowTraffic = 1
 		}
-		if passQps < float64(lowTraffic) {
+		// Traffic is low when one more request would still have fitted under the low-traffic bound. With
+		// requests of several tokens what can pass under the cold rate is a multiple of the request size and
+		// may stay below the bound however heavy the demand is (threshold 33, cold factor 3, requests of 2:
+		// 10 pass, the bound is 11): the bucket was then refilled for ever and the rule never warmed up.
+		if batchCount < 1 {
+			batchCount = 1
+		}
+		// (an interval in which nothing passed at all is low traffic whatever the request size)
+		if passQps <= 0 || passQps+float64(batchCount-1) < float64(lowTraffic) {
 			newValue = int64(float64(oldValue) + float64(currentTime-atomic.LoadUint64(&c.lastFilledTime))*c.threshold/float64(c.intervalInMs))
 		}
 	}
